@@ -15,6 +15,7 @@ from checks import c23 as kvlib
 
 
 def run(c):
+    built = kvlib.prebuild(c)
     ex = c.path("fl_ex.ndjson")
     sim = c.path("fl_sim.ndjson")
     jobs = [dict(module="MC_Flushable", cfg=c.pick("MC_Flushable_quick", "MC_Flushable_thorough"), out=ex,
@@ -29,6 +30,7 @@ def run(c):
     c.guard("tlc_transitions", ne)
     c.guard("tlc_sim_transitions", sne)
     edges = kvlib.concat(c, "fl_all.ndjson", [ex, sim])
+    built()
     adapters = ["fl:mem", "fl:ldb", "fl:peb", "lazy:mem", "fl2:mem"] + c.pick([], ["lazy:ldb", "fl2:peb"])
     out = kvlib.kv_replay(c, "fl", adapters, edges, conf, walks=c.pick(40, 400), wlen=c.pick(60, 150), par=6,
                           clause="flushable-overlay")
